@@ -147,7 +147,10 @@ func eval(emitter string, from, to uint64) (v verdict) {
 		reachable := need >= -(1<<31) && need <= 1<<31-1
 		v.relForm, v.reached = rel, true
 		if rel && !reachable {
-			v.class = "accepts-unreachable"
+			v.class = "accepts-unreachable-below" // the displacement needed is below -2^31 …
+			if need > 0 {
+				v.class = "accepts-unreachable-above" // … or above 2^31-1
+			}
 			v.desc = fmt.Sprintf("relative(from=%s,to=%s) = true, but a 5-byte jmp at from needs the displacement %s, which is not a rel32", hex(from), hex(to), shex(need))
 		}
 		return
